@@ -86,6 +86,8 @@ const CLI_WORDS: &[(&str, &str)] = &[
     ("a b", "inner  spaces"), ("tab\tx", "tab\there"), ("改\n行", "line\nbreak"), ("👨‍👩‍👧", "zwj"), ("x", " "), ("'", "'"),
     // a word / comment starting with the CSV comment character
     ("#火星", "# remark"), ("#", "#"),
+    // cells a spreadsheet would take for formulas, and cells that look like an ESCAPED formula already
+    ("=1+1", "@x"), ("'-", "'=not a formula"), ("'@", "'+"), ("-", "+"),
 ];
 
 fn run_tool(args: &[String]) -> Result<(), String> {
